@@ -25,7 +25,8 @@ CONSTANTS Kind,      \* "none" | "simple" | "memShared" | "memLocal" | "hdf5"
           Scale,
           XV,        \* <<0, 2, 5, ...>> lattice of "x" (scaled naturals)
           NZ,        \* number of values of "z"
-          Cells      \* caller-owned mutable arrays holding a value of "x"
+          Cells,     \* caller-owned mutable arrays holding a value of "x"
+          VKinds     \* value kinds of the input "x" offered to a history (see vkind)
 
 \* lattices selectable from a configuration file (XV <- Lattice4): a .cfg cannot hold a sequence.
 \* With Scale = 8, Tol = 2 (tolerance 1/4): 0 ~ 2 ~ 5 but not 0 ~ 5 (non-transitive), 2 is near 5
@@ -40,27 +41,45 @@ Full   == Kind \in {"memShared", "memLocal", "hdf5"}
 Abs(a)    == IF a < 0 THEN -a ELSE a
 Max2(a, b) == IF a < b THEN b ELSE a
 
+(* VALUE KINDS.  The abstract identity of an input is the point <<xi, zi>>; the KIND of   *)
+(* the lattice variable "x" is how that identity is represented in the discipline data:   *)
+(*   "float"   1-D float array  [XV[i]/Scale]          "int"  1-D integer array [XV[i]]    *)
+(*   "complex" 1-D complex array (zero imaginary part) "mat"  2-D float array              *)
+(*   "str"     array of one string                     "pystr" a plain Python str          *)
+(*   "dict" / "list"  a container {"a": cell, "b": [1.]} / [cell, [1.]] holding 1-D float  *)
+(*             arrays: the caller's cell is the INNER array                                *)
+(* A history has one kind (vkind, chosen initially, never changed).  The kind only changes *)
+(* the representation, except for tolerance-based matching: a tolerance is a bound on a    *)
+(* norm, which non-numeric values do not have - they are "within t" iff they are equal.   *)
+(* The integer kind represents XV[i] itself (unit 1 instead of 1/Scale).                   *)
+AllVKinds    == {"float", "int", "complex", "mat", "str", "pystr", "dict", "list"}
+Numeric(k)   == k \in {"float", "int", "complex", "mat", "dict"}
+Unit(k)      == IF k = "int" THEN 1 ELSE Scale
+ASSUME VKinds \subseteq AllVKinds /\ VKinds # {}
+
 (* "within tolerance".  BaseCache documents  |x - x'| / (1 + |x'|) <= tol  with x' the  *)
 (* cached array; compare_dict_of_arrays documents (and computes) the same bound with    *)
 (* one of its two arguments as the reference, and the caches pass the *new* input first.*)
 (* The property says "a previously seen input within t": the relation accepted here is  *)
 (* the union (reference = either side), decided by exact integer comparisons:           *)
-(*    |a-b|/Scale <= (Tol/Scale) * (1 + r/Scale)   <=>   Scale*|a-b| <= Tol*(Scale + r) *)
-NearRef(a, b, r) == Scale * Abs(XV[a] - XV[b]) <= Tol * (Scale + r)
-Admissible(x, s) ==
-    IF Tol = 0 \/ Kind = "none" THEN s = x
-    ELSE s[2] = x[2] /\ NearRef(x[1], s[1], Max2(XV[x[1]], XV[s[1]]))
-
+(*    |a-b|/U <= (Tol/Scale) * (1 + r/U)   <=>   Scale*|a-b| <= Tol*(U + r)             *)
+(* with U the unit of the kind (values are XV[i]/U).                                     *)
 VARIABLES cell,     \* cell -> lattice index: current content of the caller's array
+          vkind,    \* the value kind of "x" in this history
           runs,     \* points at which the body (_run) ran, ever
           since,    \* points at which the body ran since the cache was created/cleared
           lins,     \* points at which the Jacobian body (_compute_jacobian) ran, ever
-          lastRun,  \* point of the latest body run since the cache was created/cleared
-          hasLast,  \*   ... and whether there is one
-          bad,      \* action-level clauses broken so far ("rerun", "missedLast")
+          lastRun,  \* point of the latest body run, ever (P0 before the first one)
+          hasLast,  \* there was a body run since the cache was created/cleared
+          bad,      \* action-level clauses broken so far ("rerun", "missedLast", "reopenDiffers", "corrupted")
           ret       \* what the last call returned / did
-hvars == <<runs, since, lins, lastRun, hasLast, bad, ret>>
+hvars == <<runs, since, lins, lastRun, hasLast, bad, ret, vkind>>
 avars == <<cell, hvars>>
+
+NearRef(a, b, r) == Scale * Abs(XV[a] - XV[b]) <= Tol * (Unit(vkind) + r)
+Admissible(x, s) ==
+    IF Tol = 0 \/ Kind = "none" \/ ~Numeric(vkind) THEN s = x
+    ELSE s[2] = x[2] /\ NearRef(x[1], s[1], Max2(XV[x[1]], XV[s[1]]))
 
 (* ret: op in {"init","exec","lin"}; x the completed input of the call; hasOut: output  *)
 (* data were produced by the call (execute, or linearize with execute=True) and equal   *)
@@ -78,9 +97,12 @@ RetType == [op : {"init", "exec", "lin"}, x : Points, hasOut : BOOLEAN, src : Po
 HInit == /\ runs = {} /\ since = {} /\ lins = {} /\ lastRun = P0 /\ hasLast = FALSE
          /\ bad = {} /\ ret = NoRet
 
-(* history update for a call that returned r *)
-Observe(r) ==
-    /\ runs'  = IF r.ran THEN runs \cup {r.x} ELSE runs
+(* history update for a call that returned r.  relin: a PROCESS discipline re-executed its  *)
+(* members at r.x while assembling its Jacobian (after its own outputs had come from the    *)
+(* cache): values computed there are values of a body run at r.x, but the execution that the *)
+(* cache policies bound (AtMostOnce, SimpleKeepsLast) is the one of execute()                *)
+ObserveX(r, relin) ==
+    /\ runs'  = IF r.ran \/ relin THEN runs \cup {r.x} ELSE runs
     /\ since' = IF r.ran THEN since \cup {r.x} ELSE since
     /\ lins'  = IF r.lin THEN lins \cup {r.x} ELSE lins
     /\ bad'   = bad \cup (IF r.ran /\ r.x \in since THEN {"rerun"} ELSE {})
@@ -88,13 +110,20 @@ Observe(r) ==
     /\ lastRun' = IF r.ran THEN r.x ELSE lastRun
     /\ hasLast' = (hasLast \/ r.ran)
     /\ ret' = r
+    /\ vkind' = vkind
+Observe(r) == ObserveX(r, FALSE)
 (* the cache was emptied (clear(), or a new in-memory cache object) *)
 ObserveReset == /\ since' = {} /\ hasLast' = FALSE
-                /\ UNCHANGED <<runs, lins, lastRun, bad, ret>>
+                /\ UNCHANGED <<runs, lins, lastRun, bad, ret, vkind>>
 (* a new HDF5Cache object was opened on the same file and node; same: its entries are those *)
 (* the previous object had                                                                  *)
 ObserveReopen(same) == /\ bad' = bad \cup (IF same THEN {} ELSE {"reopenDiffers"})
-                       /\ UNCHANGED <<runs, since, lins, lastRun, hasLast, ret>>
+                       /\ UNCHANGED <<runs, since, lins, lastRun, hasLast, ret, vkind>>
+(* the caller edited in place an array it had passed to an earlier call (for a container-valued *)
+(* input: an array held by the container); same: what the cache shows through its interface     *)
+(* (its entries) is what it showed before the edit                                              *)
+ObserveMutate(same) == /\ bad' = bad \cup (IF same THEN {} ELSE {"corrupted"})
+                       /\ UNCHANGED <<runs, since, lins, lastRun, hasLast, ret, vkind>>
 
 ---------------------------------------------------------------------------------
 (* The clauses of the property.                                                         *)
@@ -103,17 +132,22 @@ TransparentOut ==      \* outputs are those of a previously run input within tol
 TransparentJac ==      \* same for the Jacobian; requested pairs are all returned
     (ret.op = "lin") => (/\ ret.jl >= ret.req /\ ret.req >= 1
                          /\ ret.jsrc \in lins /\ Admissible(ret.x, ret.jsrc))
-AtMostOnce ==          \* full cache, exact matching: the body runs once per distinct input
-    (Full /\ Tol = 0) => ("rerun" \notin bad)
+AtMostOnce ==          \* full cache: the body runs at most once per distinct input (exact matching or
+                       \* not: an input at which the body ran is a seen input within any tolerance of itself)
+    Full => ("rerun" \notin bad)
 SimpleKeepsLast ==     \* "last evaluation" policy: the latest evaluation is not redone
     (Kind = "simple" /\ Tol = 0) => ("missedLast" \notin bad)
 ReopenSame ==          \* a cache reopened from its file serves the same entries
     "reopenDiffers" \notin bad
 Uncached ==            \* no cache: every call runs the body at its own input
     (Kind = "none" /\ ret.hasOut) => (ret.ran /\ ret.src = ret.x)
-TypeOK == ret \in RetType /\ cell \in [Cells -> XI] /\ runs \subseteq Points /\ lins \subseteq Points
+CallerCannotCorrupt == \* arrays the caller passed in and later modifies never change what the cache returns
+    "corrupted" \notin bad       \* (what it SERVES for the modified array is judged by Transparent*)
+TypeOK == /\ ret \in RetType /\ cell \in [Cells -> XI] /\ runs \subseteq Points /\ lins \subseteq Points
+          /\ vkind \in VKinds
 Clauses == <<"TransparentOut", TransparentOut, "TransparentJac", TransparentJac,
-             "AtMostOnce", AtMostOnce, "SimpleKeepsLast", SimpleKeepsLast, "ReopenSame", ReopenSame, "Uncached", Uncached>>
+             "AtMostOnce", AtMostOnce, "SimpleKeepsLast", SimpleKeepsLast, "ReopenSame", ReopenSame, "Uncached", Uncached,
+             "CallerCannotCorrupt", CallerCannotCorrupt>>
 
 ---------------------------------------------------------------------------------
 (* Standalone: the most liberal system satisfying the clauses (used as a sanity check   *)
@@ -126,7 +160,7 @@ ReqLevels == 1..3
 LegalOut(r) ==
     r.hasOut => /\ (IF r.ran THEN r.src = r.x
                     ELSE (Kind # "none" /\ r.src \in runs /\ Admissible(r.x, r.src)))
-                /\ ((Full /\ Tol = 0 /\ r.x \in since) => ~r.ran)
+                /\ ((Full /\ r.x \in since) => ~r.ran)
                 /\ ((Kind = "simple" /\ Tol = 0 /\ hasLast /\ lastRun = r.x) => ~r.ran)
 LegalJac(r) ==
     (r.op = "lin") => /\ r.jl >= r.req
@@ -145,10 +179,10 @@ ALinearize(c, za, req, ex) ==
                  ran |-> ex /\ ran, req |-> req, jl |-> jl, jsrc |-> jsrc, lin |-> lin]
        IN /\ (~ex => (ret.op # "init" /\ ret.x = x /\ ~ran /\ src = P0))
           /\ LegalOut(r) /\ LegalJac(r) /\ Observe(r) /\ UNCHANGED cell
-AMutate(c, v) == /\ cell[c] # v /\ cell' = [cell EXCEPT ![c] = v] /\ UNCHANGED hvars
+AMutate(c, v) == /\ cell[c] # v /\ cell' = [cell EXCEPT ![c] = v] /\ ObserveMutate(TRUE)
 AClear == /\ Kind # "none" /\ ObserveReset /\ UNCHANGED cell
 
-AInit == /\ cell \in [Cells -> XI] /\ HInit
+AInit == /\ cell \in [Cells -> XI] /\ vkind \in VKinds /\ HInit
 ANext == \/ \E c \in Cells, za \in ZArgs : AExecute(c, za)
          \/ \E c \in Cells, za \in ZArgs, req \in ReqLevels, ex \in BOOLEAN : ALinearize(c, za, req, ex)
          \/ \E c \in Cells, v \in XI : AMutate(c, v)
